@@ -61,8 +61,8 @@ def T(s):
     """text as the driver prints it: a JSON string when valid text, else the code points"""
     if s is None:
         return None
-    if has_surrogate(s):
-        return {'cp': [ord(c) for c in s]}
+    if has_surrogate(s) or any(c in '\x85\u2028\u2029' for c in s):
+        return {'cp': [ord(c) for c in s]}       # (the raw line separators would split the driver's output lines)
     return s
 
 
